@@ -2,7 +2,7 @@ SPECIFICATION Spec
 CONSTANTS
   MaxN = 5
   Names = {"a", "b"}
-  MaxDepth = 3
+  MaxDepth = 4
 INVARIANT Inv
 PROPERTY Terminates
 CHECK_DEADLOCK FALSE
